@@ -76,6 +76,15 @@ func runC02(w *W) {
 		// ones the library grows - ends at an unmapped page, so that the overflow faults instead of corrupting the heap
 		NoBinary: !t.Chance(1, 5, "sch.binary")}
 	w.World.GuardGrowth = !so.NoBinary
+	// deep worlds: long chains of nested structs with wide requires-bitmaps over a small bitmap arena, so
+	// that one conversion outgrows the arena several times while outer levels are still open
+	deep := t.Chance(1, 10, "c02.deep")
+	if deep {
+		so.Recursive, so.ForceSelf, so.BigIDs = true, true, true
+		knobs.ReqsCap = pickInt(t, "deep.reqscap", 0, 8, 64, 256, -1)
+		w.World.GCNum, w.World.GCDen, w.World.GCBudget = 1, pickInt(t, "deep.gcden", 2, 4, 16), 12
+		w.Sig(fmt.Sprintf("deep:reqs%d", knobs.ReqsCap))
+	}
 	sch := genSchema(t, so)
 	po := thrift.Options{}
 	// thrift request base: a root field of type base.Base is filled from the context, in front of the JSON members
@@ -134,6 +143,9 @@ func runC02(w *W) {
 			Shuffle: true, ASCIIKeys: false, LongDecimals: true}
 		if opts.NoBase64Binary {
 			vo.StrClass = 0
+		}
+		if deep {
+			vo.Depth, vo.DeepSelf, vo.MaxElems, vo.MaxStr = 3+t.Intn(12, "deep.depth"), 90, 1+t.Intn(2, "deep.elems"), 1+t.Intn(40, "deep.maxstr")
 		}
 		vg := &vgen{t: t, o: vo}
 		val := vg.value(sch.Root, vo.Depth)
